@@ -1609,7 +1609,7 @@ class ResultsPage(object):
             raise ValueError("pagenum must be >= 1")
 
         self.pagecount = int(ceil(self.total / pagelen))
-        self.pagenum = min(self.pagecount, pagenum)
+        self.pagenum = max(1, min(self.pagecount, pagenum))
 
         offset = (self.pagenum - 1) * pagelen
         if (offset + pagelen) > self.total:
